@@ -178,7 +178,9 @@ BASE = {"foot": "F1", "cap": "C10", "host": "H1", "route": "R1", "load": "L1"}
 MENU_SMALL = {
     "foot": ["F2first"],
     "cap": ["C2"],
-    "host": ["H4first", "Hpinfl4", "Hpinlf4", "Hzero"],
+    # the four Hpin..4 profiles pin either end of the first/last link on either agent: pyDCOP reads a link's ends
+    # from a frozenset, so which (computation, agent) orientation a shortcut sees depends on PYTHONHASHSEED
+    "host": ["H4first", "Hpinff4", "Hpinfl4", "Hpinlf4", "Hpinll4", "Hzero"],
     "route": ["R5first"],
     "load": ["L3last"],
 }
@@ -195,22 +197,26 @@ MENU_FULL = {
 # of the five dimensions, for every shape and agent count of the block
 PLAN_QUICK = [
     ("oilp_cgdp", ["s1"], [1], MENU_SMALL, 1),
-    ("oilp_cgdp", ["e2", "hb3"], [2], MENU_SMALL, 2),
-    ("oilp_cgdp", ["pc3"], [2, 3], MENU_SMALL, 2),
+    ("oilp_cgdp", ["e2", "pc3"], [2], MENU_SMALL, 2),
     ("oilp_cgdp", ["st4"], [3], MENU_SMALL, 2),
     ("ilp_fgdp", ["s1"], [1], MENU_SMALL, 1),
-    ("ilp_fgdp", ["u1", "e2u"], [2], MENU_SMALL, 2),
-    ("ilp_fgdp", ["e2"], [2, 3], MENU_SMALL, 2),
+    ("ilp_fgdp", ["e2", "e2u"], [2], MENU_SMALL, 2),
     ("ilp_fgdp", ["h3"], [3], MENU_SMALL, 2),
 ]
 OILP_ALL = ["s1", "u1", "e2", "p2", "e2u", "e2i", "ch3", "pc3", "tri3", "h3", "hb3", "st4", "ch4", "cy4", "pc4",
             "h3e4", "h4", "ch5", "st5", "hh5", "pc5"]
 FGDP_ALL = ["s1", "u1", "u3", "e2", "p2", "e2u", "uu2", "e2i", "ch3", "h3", "hb3", "h4"]  # <= 5 computations
 PLAN_THOROUGH = [
-    ("oilp_cgdp", OILP_ALL, [1, 2, 3], MENU_FULL, 1),
-    ("ilp_fgdp", FGDP_ALL, [1, 2, 3], MENU_FULL, 1),
-    ("oilp_cgdp", ["e2", "pc3", "hb3", "st4", "pc5"], [2, 3], MENU_FULL, 2),
-    ("ilp_fgdp", ["u1", "e2", "e2u", "h3", "ch3"], [2, 3], MENU_FULL, 2),
+    ("oilp_cgdp", ["s1", "e2", "pc3"], [1], MENU_FULL, 1),
+    ("ilp_fgdp", ["s1", "u1", "e2"], [1], MENU_FULL, 1),
+    ("oilp_cgdp", OILP_ALL, [2, 3], MENU_FULL, 1),
+    ("ilp_fgdp", FGDP_ALL, [2, 3], MENU_FULL, 1),
+    ("oilp_cgdp", ["e2", "pc3"], [2, 3], MENU_FULL, 2),
+    ("oilp_cgdp", ["hb3"], [2], MENU_FULL, 2),
+    ("oilp_cgdp", ["st4"], [3], MENU_FULL, 2),
+    ("ilp_fgdp", ["e2"], [2, 3], MENU_FULL, 2),
+    ("ilp_fgdp", ["u1", "e2u"], [2], MENU_FULL, 2),
+    ("ilp_fgdp", ["h3", "ch3"], [3], MENU_FULL, 2),
     ("oilp_cgdp", ["e2", "pc3"], [2, 3], MENU_SMALL, 3),
     ("ilp_fgdp", ["e2", "e2u"], [2, 3], MENU_SMALL, 3),
 ]
@@ -352,6 +358,7 @@ def features(inst):
         "pinned": bool(pinned),
         "pinned_neighbour": any((p[0] in pinned) != (p[1] in pinned) for p in pairs),
         "parallel": any(m >= 2 for m in pairs.values()),
+        "links": len(links),
     }
 
 
@@ -416,7 +423,8 @@ def evaluate(inst):
         return obs, flaws
     except Exception as e:  # noqa -- any other exception prevents the stated result
         obs["status"] = "raised " + type(e).__name__
-        tag = "computation-with-zero-cost-on-two-agents" if feat["two_zero"] else "other"
+        tag = ("computation-with-zero-cost-on-two-agents" if feat["two_zero"]
+               else "graph-without-link" if not feat["links"] else "other")
         exp = f"a distribution of cost {best}" if feasible else "ImpossibleDistributionException (no mapping satisfies the hard rules)"
         flaws.append((f"{method}|raised-{type(e).__name__}|{tag}",
                       f"distribute raised {type(e).__name__}({e}) instead of {exp}"))
@@ -505,7 +513,7 @@ def shard(args):
         for fkey, what in flaws:
             part.outcome(("flaw", fkey))
             part.violation(fkey, describe(inst) + ": " + what, inst)
-        if i in (7, 40, 95) or (flaws and i % 16 == 0):
+        if i in (7, 60, 150):
             part.sample({"instance": inst, "profiles": choice, "observed": obs})
     return part
 
